@@ -149,6 +149,15 @@ func (x *Exec) stackTrace() []string {
 	return s
 }
 
+// callers names the innermost n frames (innermost first), short form.
+func (x *Exec) callers(n int) string {
+	var s []string
+	for i := len(x.stack) - 1; i >= 0 && len(s) < n; i-- {
+		s = append(s, x.stack[i].fn.Name())
+	}
+	return strings.Join(s, " < ")
+}
+
 func (x *Exec) goPanic(msg string) {
 	panic(&GoPanic{Msg: msg, Stack: x.stackTrace()})
 }
